@@ -8,6 +8,7 @@ pub mod c02;
 pub mod c03;
 pub mod c04;
 pub mod c05;
+pub mod c06;
 pub mod c08;
 pub mod c09;
 pub mod c10;
@@ -32,7 +33,7 @@ pub struct PropInfo {
 }
 
 pub fn all() -> Vec<PropInfo> {
-    vec![c01::info(), c02::info(), c03::info(), c04::info(), c05::info(), c08::info(), c09::info(), c10::info(), c11::info(), c12::info(), c16::info(), c18::info(), c19::info()]
+    vec![c01::info(), c02::info(), c03::info(), c04::info(), c05::info(), c06::info(), c08::info(), c09::info(), c10::info(), c11::info(), c12::info(), c16::info(), c18::info(), c19::info()]
 }
 
 pub fn find(id: &str) -> Option<PropInfo> {
